@@ -26,7 +26,7 @@ FLOORS = {"quick": {"convert": 100000, "create": 100000, "datetime": 50000, "tz.
                        "replace": 20000, "boundary": 50000}}
 REQUIRED_HOOKS = ["Timezone.convert", "FixedTimezone.convert", "DateTime.create", "pendulum.datetime", "DateTime.set",
                   "DateTime.replace", "Timezone.datetime"]
-TECHNIQUE = "runtime contracts on every wall-clock construction path with a wall-time classification oracle enumerated from the tz database"
+TECHNIQUE = "runtime contracts on every wall-clock construction path with a wall-time classification oracle enumerated from the tz database; workloads include partial set() calls reaching gaps with second-granular edges"
 LEVEL_TEXT = ("every observed construction from wall fields is judged against the set of UTC instants that render to that "
               "wall time in an independently parsed tz database; all gaps and overlaps of all zones x fold x raise flag are "
               "enumerated; held on what was observed")
